@@ -27,11 +27,11 @@ import (
 
 // C20Case is one activation environment.
 type C20Case struct {
-	PID      string `json:"pid"`        // own | other | unset | <garbage literal>
-	FDS      string `json:"fds"`        // "\x00unset" = variable not set
-	Names    string `json:"names"`      // "\x00unset" = variable not set
-	Kind     string `json:"kind"`       // kind of the descriptor the model selects (or of fd 3 when none): unix | tcp | file | pipe
-	Origin   string `json:"origin,omitempty"`
+	PID    string `json:"pid"`   // own | other | unset | <garbage literal>
+	FDS    string `json:"fds"`   // "\x00unset" = variable not set
+	Names  string `json:"names"` // "\x00unset" = variable not set
+	Kind   string `json:"kind"`  // kind of the descriptor the model selects (or of fd 3 when none): unix | tcp | file | pipe
+	Origin string `json:"origin,omitempty"`
 }
 
 const envUnset = "\x00unset"
